@@ -3,7 +3,7 @@
 From Coq Require Import ZArith List Bool Lia ZifyBool String.
 From V Require Import Base.Int Base.IO Base.IntLemmas Base.Lift Spec.Gregorian Spec.StrftimeDoc
   Model.Items Gen.Strftime Gen.Locales Model.Strftime Model.Format
-  Proofs.C12 Proofs.C12Str Proofs.C12Tok Proofs.C12Fam Proofs.C12All Proofs.C12Judge
+  Proofs.C12 Proofs.C12Str Proofs.C12Tok Proofs.C12Fam Proofs.C12All Proofs.C12Judge Proofs.C12Lenient
   Proofs.C12Exact Proofs.C12Exact2 Proofs.C12Exact3.
 From V Require Proofs.C15Strftime.
 Import ListNotations.
@@ -164,3 +164,41 @@ Lemma density_example :
 Proof. vm_compute. split; reflexivity. Qed.
 Lemma exact_inhabited : utf8_valid (Bs "%Qx %.3y%-a%-Dz") = true /\ blen (Bs "%Qx %.3y%-a%-Dz") <= u64_max.
 Proof. vm_compute. split; [reflexivity|discriminate]. Qed.
+
+(** the rendered text, both modes: the formatter writes the items of the description up to the
+    first [Error] (lenient mode has none: every invalid specifier is written as its source text,
+    followed by the leaked items of a composite after `%-D`-like specifiers) *)
+Lemma take_to_until : forall fuel st L, sf_take fuel st [] = Val (Some L) ->
+  sf_until_err fuel st [] = Val (until_first_err L).
+Proof.
+  induction fuel as [|f IH]; intros st L H; [discriminate|].
+  cbn [sf_take sf_until_err] in *. unfold bind in *.
+  destruct (sf_next st) as [[o st']| |]; try discriminate.
+  destruct o as [it|]; [|injection H as <-; reflexivity].
+  rewrite sf_take_acc in H. unfold rmap, bind in H.
+  destruct (sf_take f st' []) as [[l'|]| |] eqn:Et; try discriminate.
+  cbn [option_map rev app] in H. injection H as <-.
+  pose proof (IH st' l' Et) as Hu.
+  destruct it; cbn [until_first_err]; try (rewrite sf_until_err_acc, Hu; reflexivity). reflexivity.
+Qed.
+Theorem display_exact : forall a l s, utf8_valid s = true -> blen s <= u64_max ->
+  delayed_display a (mk_sfi s [] l) = write_items a (until_first_err (exact_items l s)) [].
+Proof.
+  intros a l s Hv Hl. unfold delayed_display. cbn [sf_remainder sf_queue List.length]. rewrite Nat.add_0_r.
+  apply format_concat. apply take_to_until. exact (items_exact l s Hv Hl).
+Qed.
+Theorem lenient_no_error : forall s, utf8_valid s = true -> blen s <= u64_max ->
+  until_first_err (exact_items true s) = exact_items true s.
+Proof.
+  intros s Hv Hl. destruct (lenient_never_errors s Hv Hl) as (l0 & Ht & Hn). unfold sf_new_lenient in Ht.
+  rewrite (items_exact true s Hv Hl) in Ht. injection Ht as <-. apply until_first_err_noerr. clear -Hn.
+  induction (exact_items true s) as [|i r IH]; [reflexivity|].
+  cbn [forallb] in Hn. apply andb_prop in Hn. destruct Hn as [Hi Hr].
+  destruct i; cbn [has_ierr]; try (apply IH; exact Hr). discriminate Hi.
+Qed.
+Theorem lenient_display_exact : forall a s, utf8_valid s = true -> blen s <= u64_max ->
+  delayed_display a (sf_new_lenient s) = write_items a (exact_items true s) [].
+Proof.
+  intros a s Hv Hl. unfold sf_new_lenient. rewrite (display_exact a true s Hv Hl), (lenient_no_error s Hv Hl).
+  reflexivity.
+Qed.
